@@ -179,6 +179,9 @@ pub struct SrvCfg {
     /// every chunk of every script is one rejected request; a client sends its next chunk only
     /// after it has read the reply to the previous one, so the k-th 400 answers the k-th chunk
     pub chunk_replies: bool,
+    /// descriptor 0 of the process is free while the server runs (a daemon that closed its standard
+    /// input): the first descriptor the server obtains after start-up is number 0
+    pub free_fd0: bool,
     /// a duplicate response for the last answered request of a released connection is an explored action
     pub late_duplicates: bool,
 }
@@ -213,6 +216,7 @@ impl SrvCfg {
             kill_install_action: false,
             kill_reinstall: false,
             chunk_replies: false,
+            free_fd0: false,
             late_duplicates: false,
         }
     }
@@ -228,7 +232,7 @@ impl SrvCfg {
             "max_depth": self.max_depth, "closure_all": self.closure_all, "closure_witness": self.closure_witness,
             "release_check": self.release_check, "flush_probe": self.flush_probe, "twin_without_kill": self.twin_without_kill,
             "respond_any": self.respond_any, "max_outstanding_for_respond": self.max_outstanding_for_respond,
-            "never_yield": self.never_yield, "must_yield_after": self.must_yield_after, "closure_c11": self.closure_c11, "yield_promptly": self.yield_promptly, "kill_switch_late": self.kill_switch_late, "flush_action": self.flush_action, "kill_install_action": self.kill_install_action, "kill_reinstall": self.kill_reinstall, "chunk_replies": self.chunk_replies, "late_duplicates": self.late_duplicates,
+            "never_yield": self.never_yield, "must_yield_after": self.must_yield_after, "closure_c11": self.closure_c11, "yield_promptly": self.yield_promptly, "kill_switch_late": self.kill_switch_late, "flush_action": self.flush_action, "kill_install_action": self.kill_install_action, "kill_reinstall": self.kill_reinstall, "chunk_replies": self.chunk_replies, "free_fd0": self.free_fd0, "late_duplicates": self.late_duplicates,
         })
     }
     pub fn from_json(v: &Value) -> SrvCfg {
@@ -284,6 +288,7 @@ impl SrvCfg {
             kill_install_action: b("kill_install_action"),
             kill_reinstall: b("kill_reinstall"),
             chunk_replies: b("chunk_replies"),
+            free_fd0: b("free_fd0"),
             late_duplicates: b("late_duplicates"),
             flush_action: b("flush_action"),
         }
@@ -413,6 +418,7 @@ pub struct World<'a> {
     polls_after_kill: usize,
     devnull: RawFd,
     foreign: BTreeSet<RawFd>,
+    saved_fd0: Option<RawFd>,
     clients: Vec<Client>,
     pending_accept: VecDeque<usize>,
     outstanding: Vec<Outstanding>,
@@ -494,7 +500,7 @@ fn fionread(fd: RawFd) -> i32 {
 
 impl<'a> World<'a> {
     pub fn new(cfg: &'a SrvCfg, tracing: bool, with_kill_switch: bool) -> World<'a> {
-        let foreign = open_fds();
+        let mut foreign = open_fds();
         let n = COUNTER.fetch_add(1, std::sync::atomic::Ordering::Relaxed);
         let name = format!("mhv-{}-{}", std::process::id(), n);
         let lfd = cvt(unsafe { libc::socket(libc::AF_UNIX, libc::SOCK_STREAM | libc::SOCK_CLOEXEC, 0) }, "socket");
@@ -565,6 +571,19 @@ impl<'a> World<'a> {
             last_answered: None,
             with_kill: with_kill_switch,
             devnull,
+            saved_fd0: if cfg.free_fd0 {
+                let saved = unsafe { libc::fcntl(0, libc::F_DUPFD_CLOEXEC, 700) };
+                if saved >= 0 {
+                    unsafe { libc::close(0) };
+                    foreign.remove(&0);
+                    foreign.insert(saved);
+                    Some(saved)
+                } else {
+                    None
+                }
+            } else {
+                None
+            },
             foreign,
             clients,
             pending_accept: VecDeque::new(),
@@ -2126,6 +2145,12 @@ impl<'a> Drop for World<'a> {
         }
         unsafe {
             libc::close(self.devnull);
+        }
+        if let Some(saved) = self.saved_fd0.take() {
+            unsafe {
+                libc::dup2(saved, 0);
+                libc::close(saved);
+            }
         }
         self.kill = None;
     }
